@@ -746,3 +746,6 @@ func (x *SpecialSummary) AddSample(v any) {
 		x.s.Samples = append(x.s.Samples, sanitize(v))
 	}
 }
+
+// WrapSummary gives an Extra hook thread-safe access to the run's summary.
+func WrapSummary(s *Summary) *SpecialSummary { return &SpecialSummary{s: s} }
